@@ -284,7 +284,7 @@ def norm_scribe(t):
     return tuple(norm_scribe(x) if isinstance(x, tuple) else x for x in t)
 
 
-def check(ctx):
+def schema_rules(ctx, only=None):
     rid = 'R01.1'
     ctx.rule(rid, 'schema conformance: per syntactic form, emitted term ≡ reviewed schema term (symbolic evaluation) and scope/compile event order = schema order')
     ctx.rule('R01.1s', 'summaries used by the schemas are justified from the helper bodies (element closure, empty tuple, list block wrapper)')
@@ -294,6 +294,9 @@ def check(ctx):
     for r in table:
         by_key[(r['fn'], r['form'])] = r
     seen = set()
+    if only is not None:
+        rows = [r for r in rows if r['fn'] in only]
+        by_key = {k: v for k, v in by_key.items() if k[0] in only}
     for r in rows:
         key = (r['fn'], r['form'])
         short_fn = r['fn'].split('::')[-2].replace('<impl ast::', '').replace('>', '') + '::' + r['fn'].split('::')[-1] if 'impl' in r['fn'] else r['fn'].split('::')[-1]
@@ -334,9 +337,13 @@ def check(ctx):
     for key, r in by_key.items():
         if key not in seen:
             ctx.ob(rid, 'missing-form:%s[%s]' % (key[0].split('::')[-1], key[1]), False, 'schema form has no code generation path any more', None)
-    ctx.floor(rid, 'code generation paths', len(rows), 34)
+    ctx.floor(rid, 'code generation paths', len(rows), 34 if only is None else 1)
     for name, ok, desc in obl:
         ctx.ob('R01.1s', name, ok, desc)
+
+
+def check(ctx):
+    schema_rules(ctx)
     from . import c14, binding, layout
     c14.r_neutral(ctx)
     binding.r_selectors(ctx, 'R01.3')
